@@ -34,12 +34,11 @@ func usesValue(in ssa.Instruction, set map[ssa.Value]bool) bool {
 // avoidable: can `sink` be reached from the entry of fn without executing `marker` first?
 func avoidable(fn *ssa.Function, marker, sink ssa.Instruction) bool {
 	if marker.Block() == sink.Block() {
-		if instrIndex(marker) < instrIndex(sink) {
-			return false
-		}
+		// same block: the sink is avoidable exactly when it comes first
+		return instrIndex(marker) > instrIndex(sink)
 	}
 	if marker.Block() == fn.Blocks[0] {
-		return marker.Block() == sink.Block() // marker in entry block after sink
+		return false // every path starts by executing the marker
 	}
 	blocked := map[edge]bool{}
 	for _, pb := range marker.Block().Preds {
